@@ -6,7 +6,7 @@ class C10(vlib.Spec):
     model_vo = ["theories/Coll/ModelVC.vo", "theories/Coll/ModelVar.vo"]
     props_vo = "theories/Props/C10.vo"
     theorems = ["C10_history", "C10_spec_is_multiset", "C10_set_equality", "C10_counted_equality",
-                "C10_duplicate_counted", "C10_holds_b_sound", "C10_variadic_tuple_ops",
+                "C10_duplicate_counted", "C10_holds_b_sound", "C10_variadic_tuple_ops", "C10_variadic_vec_ops",
                 "C10_split_by_suffix_roundtrip"]
     crate, group, binary = "h_coll", "light", "h_coll"
     imports = "From HV Require Import Coll.ModelVC Coll.ModelVar."
